@@ -308,7 +308,9 @@ def execute(sc):
     elif name == 'rotated':
       target = v64
       dpad = 1 << max(0, (d - 1).bit_length())
-      width = 2 * np.linalg.norm(v64) * math.sqrt(dpad) / (L - 1)
+      # per-coordinate error after the inverse rotation lies in [-w, w] with w = sqrt(dpad) * step_y, so the Hoeffding
+      # range is 2w (for the plain grid quantizers the range is one step)
+      width = 2 * (2 * np.linalg.norm(v64) * math.sqrt(dpad) / (L - 1))
     else:
       target = v64
       width = (v64.max() - v64.min()) / (L - 1)
